@@ -132,7 +132,7 @@ def judge_comp(line, out):
 
 def dec_cases(rng, tier):
     cases = []
-    ns = 260 if tier == "quick" else 3000
+    ns = 800 if tier == "quick" else 5000
     for i in range(ns):
         for fmt in ("snappy", "lz4"):
             if fmt == "snappy":
@@ -206,8 +206,9 @@ def check_decoders(rep, tier, rng, drv, run):
             if (must == "OK") != (lib == "OK") or (lib == "OK" and lval != y):
                 rep.tie_broken(f"libsnappy and the independent Python decoder disagree: lib={lib} python={must}", line)
         else:
-            if lib == "OK" and (must == "ERR" or lval != y):
-                rep.tie_broken(f"liblz4 accepts what the independent Python decoder rejects / decodes differently", line)
+            # (liblz4 does not reject offset 0 and enforces part of the end rules: only compare where both accept)
+            if lib == "OK" and must != "ERR" and lval != y:
+                rep.tie_broken(f"liblz4 and the independent Python decoder decode the same block differently", line)
             if must == "OK" and endok and lib != "OK" and len(y) > 0:     # (liblz4 special-cases an empty destination)
                 rep.tie_broken(f"liblz4 rejects a block the Python reference holds valid with end rules respected", line)
         # extracted model and extracted specification
